@@ -5,7 +5,7 @@
    immutable); on the Go side it is what the tie checks. *)
 From stdpp Require Import gmap.
 From Coq Require Import ZArith.
-From GV Require Import C38.Model C38.Proofs.
+From GV Require Import C38.Model C38.Exec C38.Proofs C38.Proofs2 C38.Proofs3.
 
 (* GCounter: for ALL states (no reachability needed). g_state is the replicated state, Value() a function of it. *)
 Theorem C38_gcounter_join : ∀ a b c : gcounter,
@@ -90,6 +90,70 @@ Proof.
   apply s_merge_inflation; assumption.
 Qed.
 
+(* LWWRegister over every state reachable by a system of replicas (any number) in which replica i
+   writes with node id i and timestamps it has not used before (strictly increasing per node);
+   H holds every state ever produced: current states, old snapshots, messages in flight, merge results. *)
+Theorem C38_lww_join_reachable : ∀ cur H, l_sys cur H → ∀ a b c, a ∈ H → b ∈ H → c ∈ H →
+  l_core (l_merge a b) = l_core (l_merge b a) ∧
+  l_core (l_merge (l_merge a b) c) = l_core (l_merge a (l_merge b c)) ∧
+  l_core (l_merge a a) = l_core a.
+Proof.
+  intros cur H Hs a b c Ha Hb Hc. destruct (l_sys_inv cur H Hs) as [Hcoh _].
+  repeat split; [apply l_merge_comm|apply l_merge_assoc|apply l_merge_idem]; auto.
+Qed.
+
+(* MVRegister over every state reachable by a system of replicas each using its own node id. *)
+Theorem C38_mvregister_join : ∀ cur H, mv_sys cur H → ∀ a b c, a ∈ H → b ∈ H → c ∈ H →
+  mv_merge a b = mv_merge b a ∧
+  mv_merge (mv_merge a b) c = mv_merge a (mv_merge b c) ∧
+  mv_entries (mv_merge a a) = mv_entries a ∧ mv_clock (mv_merge a a) = mv_clock a ∧
+  mv_values (mv_merge a b) = mv_values (mv_merge b a) ∧
+  mv_values (mv_merge (mv_merge a b) c) = mv_values (mv_merge a (mv_merge b c)) ∧
+  mv_values (mv_merge a a) = mv_values a ∧
+  mv_merge a (mv_merge a b) = mv_merge a b ∧
+  (∀ n, (cget (mv_clock a) n ≤ cget (mv_clock (mv_merge a b)) n)%N).
+Proof.
+  intros cur H Hs a b c Ha Hb Hc. destruct (mv_sys_inv cur H Hs) as [Iwf _ Icoh _].
+  destruct (Iwf a Ha) as [Wa _]. destruct (Iwf b Hb) as [Wb _]. destruct (Iwf c Hc) as [Wc _].
+  pose proof (mv_merge_comm a b Wa Wb (Icoh a b Ha Hb)) as H1.
+  pose proof (mv_merge_assoc a b c Wa Wb Wc (Icoh a b Ha Hb) (Icoh b c Hb Hc) (Icoh a c Ha Hc)) as H2.
+  pose proof (mv_merge_idem a Wa) as H3.
+  repeat split; try assumption; try (rewrite H3; reflexivity).
+  - rewrite H1; reflexivity.
+  - rewrite H2; reflexivity.
+  - apply mv_merge_absorb; auto.
+  - intros n. apply mv_merge_inflation. exact Wb.
+Qed.
+
+(* ORMap, for ANY nested CRDT type V whose merge is a join on its replicated state (vcore):
+   commutative and idempotent on the whole replicated state; the key set is a join unconditionally;
+   associative under the explicit guard [assoc_guard]. *)
+Theorem C38_ormap_join_partial :
+  ∀ (V C : Type) (vmerge : V → V → V) (vcore : V → C) (cmerge : C → C → C) (ok : C → Prop),
+  (∀ a b, vcore (vmerge a b) = cmerge (vcore a) (vcore b)) →
+  (∀ a b, ok a → ok b → cmerge a b = cmerge b a) →
+  (∀ a b c, ok a → ok b → ok c → cmerge (cmerge a b) c = cmerge a (cmerge b c)) →
+  (∀ a, ok a → cmerge a a = a) →
+  ∀ a b c : ormap V, m_ok vcore ok a → m_ok vcore ok b → m_ok vcore ok c →
+    mcore vcore (m_merge vmerge a b) = mcore vcore (m_merge vmerge b a) ∧
+    (m_dom a → mcore vcore (m_merge vmerge a a) = mcore vcore a) ∧
+    m_keys (m_merge vmerge (m_merge vmerge a b) c) = m_keys (m_merge vmerge a (m_merge vmerge b c)) ∧
+    (assoc_guard a b c = true →
+       mcore vcore (m_merge vmerge (m_merge vmerge a b) c) = mcore vcore (m_merge vmerge a (m_merge vmerge b c))).
+Proof.
+  intros V C vmerge vcore cmerge ok hom cc ca ci a b c Ha Hb Hc. repeat split.
+  - apply (m_merge_comm vmerge vcore cmerge ok hom cc); assumption.
+  - intros Hd. apply (m_merge_idem vmerge vcore cmerge ok hom ci); assumption.
+  - apply (m_merge_keys_join vmerge vcore ok a b c); assumption.
+  - intros Hg. apply (m_merge_assoc_guarded vmerge vcore cmerge ok hom ca); assumption.
+Qed.
+
+(* The literal statement is FALSE for ORMap: a sets k; b observes it and removes k; c concurrently
+   sets k. (a⊔b)⊔c exposes c's value only, a⊔(b⊔c) exposes a's and c's merged. Replayed on the real code. *)
+Theorem C38_ormap_assoc_refuted : ∃ a b c : ormap val0,
+  value1 (merge1 (merge1 a b) c) ≠ value1 (merge1 a (merge1 b c)) ∧ assoc_guard a b c = false.
+Proof. exists w_a, w_b, w_c. split; [exact ormap_assoc_refuted|exact (proj1 ormap_guard_examples)]. Qed.
+
 Print Assumptions C38_gcounter_join.
 Print Assumptions C38_gcounter_inflation.
 Print Assumptions C38_pncounter_join.
@@ -98,3 +162,7 @@ Print Assumptions C38_lww_refuted.
 Print Assumptions C38_lww_join_partial.
 Print Assumptions C38_orset_join.
 Print Assumptions C38_orset_inflation.
+Print Assumptions C38_lww_join_reachable.
+Print Assumptions C38_mvregister_join.
+Print Assumptions C38_ormap_join_partial.
+Print Assumptions C38_ormap_assoc_refuted.
